@@ -341,6 +341,9 @@ func (s *Solver) check() Verdict {
 		s.Errors++
 		v = VUnknown
 	}
+	if s.log != nil {
+		fmt.Fprintf(s.log, "; verdict %s\n", v)
+	}
 	switch v {
 	case VSat:
 		s.Sat++
